@@ -50,6 +50,7 @@ fn c02_conc(rng: &mut Rng, name: &'static str) -> Prepared {
     p.keys = (2, 4);
     p.pressure = *rng.pick(&[Pressure::Over, Pressure::Tight, Pressure::Fits]);
     p.mix = [25, 20, 12, 40, 0, 0, 5, 2];
+    p.valueless_pct = 25;
     prep(conc(rng, "C02", name, &p))
 }
 
@@ -155,6 +156,7 @@ fn c18_conc(rng: &mut Rng, name: &'static str) -> Prepared {
     p.ttl_pct = 45;
     p.tiny_queue_pct = 85;
     p.upsert_may_raise = false;
+    p.valueless_pct = 30;
     p.mix = [26, 26, 14, 26, 2, 1, 3, 2];
     if rng.chance(1, 4) {
         p.shutdowns = rng.range(1, 2) as usize;
@@ -420,6 +422,11 @@ fn own_c10(m: &Mis, op: &Op, _pre: &Model) -> Option<String> {
 }
 
 fn own_c16(m: &Mis, _op: &Op, _pre: &Model) -> Option<String> {
+    // KeysUpdated is not part of the stated identities (an implementation may or may not count a
+    // weight-preserving upsert as an update): it is predicted by the model but not owned by C16
+    if m.aspect == "stats.keys_updated" {
+        return None;
+    }
     if m.aspect.starts_with("stats.") {
         return Some(format!("C16/{}/{}", m.aspect, m.class));
     }
@@ -508,6 +515,14 @@ fn focus_for(name: &str) -> (Focus, Own) {
             f.property = "C09";
             f.mix = [20, 18, 4, 34, 18, 3, 1, 2];
             f.ttl_pct = 75;
+            own_c09
+        }
+        "C09B" => {
+            // separate stratum: the clock may also move backwards
+            f.property = "C09";
+            f.mix = [20, 18, 4, 34, 20, 3, 0, 1];
+            f.ttl_pct = 75;
+            f.rewind_pct = 40;
             own_c09
         }
         "C10" => {
@@ -621,7 +636,8 @@ fn c10_conc(rng: &mut Rng, name: &'static str) -> Prepared {
 fn c04_conc(rng: &mut Rng, name: &'static str) -> Prepared {
     let mut p = ConcParams::base();
     p.keys = (1, 3);
-    p.mix = [28, 8, 26, 34, 0, 0, 3, 1];
+    p.mix = [26, 12, 26, 32, 0, 0, 3, 1];
+    p.valueless_pct = 50;
     p.wait_mix = [35, 40, 25];
     p.pressure = *rng.pick(&[Pressure::Fits, Pressure::Fits, Pressure::Tight]);
     p.stall_pct = 50;
@@ -640,6 +656,7 @@ fn c05_conc(rng: &mut Rng, name: &'static str) -> Prepared {
     p.stall_pct = 55;
     p.stall_roles = vec![RoleName::Worker, RoleName::Worker, RoleName::Sweeper];
     p.pressure = *rng.pick(&[Pressure::Over, Pressure::Tight, Pressure::Fits]);
+    p.valueless_pct = 25;
     prep(conc(rng, "C05", name, &p))
 }
 
@@ -675,6 +692,86 @@ fn c11_conc(rng: &mut Rng, name: &'static str) -> Prepared {
     }
     sc.cfg.weight += n_threads as i64;
     prep(sc)
+}
+
+fn c07_conc(rng: &mut Rng, name: &'static str) -> Prepared {
+    let mut p = ConcParams::base();
+    p.keys = (1, 3);
+    p.threads = (2, 4);
+    p.ops = (2, 8);
+    p.mix = [55, 15, 10, 14, 0, 0, 4, 2];
+    p.wait_mix = [20, 45, 35];
+    p.ttl_pct = 25;
+    p.tiny_queue_pct = 75;
+    p.stall_pct = 55;
+    p.stall_roles = vec![RoleName::Worker];
+    p.pressure = *rng.pick(&[Pressure::Fits, Pressure::Tight, Pressure::Over]);
+    prep(conc(rng, "C07", name, &p))
+}
+
+/// Owners issue unawaited weight / value upserts on their own live keys (no TTLs, nothing can be
+/// evicted): the final charged weight and value are determined by program order.
+fn c08_conc(rng: &mut Rng, name: &'static str) -> Prepared {
+    let n_threads = rng.range(1, 3) as usize;
+    let keys = rng.range(n_threads as u64, (n_threads * 2) as u64) as u32;
+    let base: Vec<i64> = (0..keys).map(|_| rng.range_i(1, 6)).collect();
+    let cfg = Cfg {
+        weight: 400,
+        capacity: 16,
+        counters: 64,
+        shards: *rng.pick(&[2usize, 4]),
+        queue: *rng.pick(&[1usize, 1, 2, 64]),
+        pool: 1,
+        buffer: 2,
+        hash: *rng.pick(&[HashMode::Identity, HashMode::Constant]),
+        weight_fn: WeightFn::PerKey(base.clone()),
+        start: Dur::secs(1_700_000_000),
+        keys,
+    };
+    let mut threads = vec![];
+    for t in 0..n_threads {
+        let mine: Vec<u32> = (0..keys).filter(|k| (*k as usize) % n_threads == t).collect();
+        let mut prog = vec![];
+        let mut i = 0usize;
+        for k in &mine {
+            prog.push(Op::Put { key: *k, val: token(t, i, *k), weight: Some(rng.range_i(1, 6)), ttl: None, wait: Wait::Now });
+            i += 1;
+        }
+        let n = rng.range(2, 8) as usize;
+        for _ in 0..n {
+            let k = *rng.pick(&mine);
+            let op = match rng.below(10) {
+                0..=5 => {
+                    // weights from a tiny set, so that "the weight currently charged" is requested often
+                    let val = if rng.chance(1, 2) { Some(token(t, i, k)) } else { None };
+                    Op::Upsert { key: k, val, weight: Some(rng.range_i(1, 4)), ttl: None, remove_ttl: false, wait: *rng.pick(&[Wait::Later, Wait::Later, Wait::Never, Wait::Now]) }
+                }
+                6..=7 => Op::Upsert { key: k, val: Some(token(t, i, k)), weight: None, ttl: None, remove_ttl: false, wait: *rng.pick(&[Wait::Later, Wait::Never, Wait::Now]) },
+                8 => Op::Read { kind: *rng.pick(&ALL_READS), keys: vec![k] },
+                _ => Op::AwaitAll,
+            };
+            prog.push(op);
+            i += 1;
+        }
+        prog.push(Op::AwaitAll);
+        threads.push(prog);
+    }
+    let mut sched = gen_sched(rng);
+    if rng.chance(60, 100) {
+        sched.stalls.push(gen_stall(rng, RoleName::Worker));
+    }
+    prep(Scenario {
+        property: "C08".to_string(),
+        family: "CONC".to_string(),
+        stratum: name.to_string(),
+        cfg,
+        threads,
+        online: String::new(),
+        online_seed: 0,
+        online_steps: 0,
+        sched,
+        salt: rng.next(),
+    })
 }
 
 fn c15_pipe(rng: &mut Rng, name: &'static str) -> Prepared {
@@ -727,6 +824,29 @@ fn c16_conc(rng: &mut Rng, name: &'static str) -> Prepared {
     prep(sc)
 }
 
+thread_local! {
+    static CUR_PROPERTY: RefCell<String> = RefCell::new(String::new());
+}
+
+pub fn set_property(p: &str) {
+    CUR_PROPERTY.with(|c| *c.borrow_mut() = p.to_string());
+}
+
+fn x_seek(rng: &mut Rng, name: &'static str, finding: &str) -> Prepared {
+    let prop = CUR_PROPERTY.with(|c| c.borrow().clone());
+    let online = format!("{}:seek:{}", prop, finding);
+    seq_prepare(rng, &prop, name, &online, (4, 24))
+}
+fn x_seek_d3(rng: &mut Rng, name: &'static str) -> Prepared {
+    x_seek(rng, name, "D3")
+}
+fn x_seek_d4(rng: &mut Rng, name: &'static str) -> Prepared {
+    x_seek(rng, name, "D4")
+}
+fn x_seek_d5(rng: &mut Rng, name: &'static str) -> Prepared {
+    x_seek(rng, name, "D5")
+}
+
 macro_rules! seq_stratum {
     ($fname:ident, $prop:expr, $online:expr, $lo:expr, $hi:expr) => {
         fn $fname(rng: &mut Rng, name: &'static str) -> Prepared {
@@ -735,15 +855,13 @@ macro_rules! seq_stratum {
     };
 }
 seq_stratum!(c01_seq, "C01", "C01", 6, 40);
-seq_stratum!(c01_seek_d5, "C01", "C01:seek:D5", 4, 20);
 seq_stratum!(c03_seq, "C03", "C03", 30, 120);
 seq_stratum!(c04_seq, "C04", "C04", 6, 40);
 seq_stratum!(c05_seq, "C05", "C05", 6, 40);
 seq_stratum!(c07_seq, "C07", "C07", 6, 40);
-seq_stratum!(c07_seek_d3, "C07", "C07:seek:D3", 4, 20);
 seq_stratum!(c08_seq, "C08", "C08", 6, 40);
-seq_stratum!(c08_seek_d4, "C08", "C08:seek:D4", 4, 20);
 seq_stratum!(c09_seq, "C09", "C09", 6, 40);
+seq_stratum!(c09_seq_backward, "C09", "C09B", 6, 40);
 seq_stratum!(c10_seq, "C10", "C10", 8, 50);
 seq_stratum!(c16_seq, "C16", "C16", 6, 40);
 
@@ -755,10 +873,11 @@ pub fn plan(property: &str) -> Vec<Stratum> {
         "C04" => vec![Stratum { name: "conc-delete-race", share: 6, gen: c04_conc }, Stratum { name: "seq-model", share: 4, gen: c04_seq }],
         "C05" => vec![Stratum { name: "conc-same-key-races", share: 8, gen: c05_conc }, Stratum { name: "seq-model", share: 2, gen: c05_seq }],
         "C06" => vec![Stratum { name: "seq-admission", share: 10, gen: c06_seq }],
-        "C07" => vec![Stratum { name: "seq-lifecycle", share: 10, gen: c07_seq }],
-        "C08" => vec![Stratum { name: "seq-upsert", share: 10, gen: c08_seq }],
+        "C07" => vec![Stratum { name: "seq-lifecycle", share: 7, gen: c07_seq }, Stratum { name: "conc-same-key-puts", share: 3, gen: c07_conc }],
+        "C08" => vec![Stratum { name: "seq-upsert", share: 7, gen: c08_seq }, Stratum { name: "conc-unawaited-upserts", share: 3, gen: c08_conc }],
         "C09" => vec![
-            Stratum { name: "seq-clock", share: 5, gen: c09_seq },
+            Stratum { name: "seq-clock", share: 4, gen: c09_seq },
+            Stratum { name: "seq-clock-backward", share: 1, gen: c09_seq_backward },
             Stratum { name: "conc-owners-fits", share: 3, gen: c09_conc_fits },
             Stratum { name: "conc-owners-pressure", share: 2, gen: c09_conc_pressure },
         ],
@@ -774,11 +893,22 @@ pub fn plan(property: &str) -> Vec<Stratum> {
         "ALL" => vec![Stratum { name: "seq-all", share: 10, gen: all_seq }],
         _ => vec![],
     };
-    // seek strata exist only while the finding they look for is listed as open
+    // Inputs that the main strata avoid because of an open finding are still exercised for every
+    // sequential property in small "seek" strata, judged by that property's own ownership rules
+    // (only the finding's own listed signature is tolerated, and only under its own property).
+    if matches!(property, "C01" | "C03" | "C04" | "C05" | "C07" | "C08" | "C09" | "C10" | "C16") {
+        for (finding, name, gen) in [
+            ("D3", "seek-D3", x_seek_d3 as fn(&mut Rng, &'static str) -> Prepared),
+            ("D4", "seek-D4", x_seek_d4 as fn(&mut Rng, &'static str) -> Prepared),
+            ("D5", "seek-D5", x_seek_d5 as fn(&mut Rng, &'static str) -> Prepared),
+        ] {
+            if is_open(finding) {
+                v.push(Stratum { name, share: 1, gen });
+            }
+        }
+    }
     match property {
-        "C01" if is_open("D5") => v.push(Stratum { name: "seek-D5", share: 1, gen: c01_seek_d5 }),
-        "C07" if is_open("D3") => v.push(Stratum { name: "seek-D3", share: 1, gen: c07_seek_d3 }),
-        "C08" if is_open("D4") => v.push(Stratum { name: "seek-D4", share: 1, gen: c08_seek_d4 }),
+        "C01" | "C07" | "C08" => {}
         "C17" => {
             if is_open("D6") {
                 v.push(Stratum { name: "seek-D6", share: 1, gen: c17_seek });
@@ -819,6 +949,8 @@ pub fn judge(property: &str, sc: &Scenario, out: &RunOutput, _rec: &SchedRecord)
         "C03" if conc => oracle::c03_conc(sc, &hx, &mut v),
         "C04" if conc => oracle::c04_conc(sc, &hx, &mut v),
         "C05" if conc => oracle::quiescent_accounting(&hx, "C05", &mut v),
+        "C07" if conc => oracle::c07_conc(sc, &hx, &mut v),
+        "C08" if conc => oracle::c08_conc(sc, &hx, &mut v),
         "C09" if conc => oracle::c09_conc(sc, &hx, &mut v, sc.stratum.ends_with("fits")),
         "C10" if conc => oracle::c10_conc(sc, &hx, &mut v),
         "C11" => oracle::c11(sc, &hx, &out.chans, &mut v),
